@@ -189,7 +189,7 @@ def check_script(dd, case, acc):
 def shard(ctx, acc):
     dd = env.load()
     from vlib import runner as r_
-    total = 6000 if ctx.quick else 120000
+    total = 6000 if ctx.quick else 500000
     env.set_options(dd, ['in.smt2', 'out.smt2', '/bin/true'])
 
     def body(s):
@@ -225,7 +225,7 @@ def soundness_sample(ctx, acc):
         acc.count('generator-soundness-checked')
 
     try:
-        runner.hyp_run(ctx, gen_typed.script(), body, 300, salt=11)
+        runner.hyp_run(ctx, gen_typed.script(), body, 800, salt=11)
     except FileNotFoundError:
         acc.count('cvc5-unavailable')
 
